@@ -18,6 +18,7 @@ Case kinds (all JSON-able):
                    'v1' earlier version, 'prime' who cached it, 'mt' mtime kept?, 'junk', 'gone', 'ldr'), optional 'gfile'}
 't' and 'r' cases may carry 'b': 1 - the text is handed to from_string as UTF-8 bytes.
 """
+import gc
 import io
 import itertools
 import linecache
@@ -789,6 +790,8 @@ class C16(Property):
             case['af'] = rng.choice(['kw', 'pos', 'stderr'])
         if rng.random() < 0.15:
             case['pf'] = 1
+        if rng.random() < 0.12:
+            case['late'] = 1
         if rng.random() < (0.5 if session else 0.2):
             case['exc'] = dict(self.random_capture(nm, False), m=exc['m'])
             case['prior'] = [self.random_capture(nm, True) for _ in range(rng.randint(1, 3))]
@@ -834,6 +837,17 @@ class C16(Property):
             for limit in (None, 1):
                 yield case([pin], [call, lam], limit=limit, af=af)
                 yield case([pin], [call], limit=limit, af=af, pf=1, order='s')
+        # object lifetime: only the TracebackInfo is kept, everything else goes away before it is first read
+        for reg in ('cache', 'loader', 'none', 'loader_none'):
+            for order in 'bs':
+                yield case([{'file': 'rel0.py', 'name': 'bvm0', 'reg': reg}], [call, lam], order=order, late=1)
+        for v1, prime in (('none', 'none'), ('retag', 'getlines'), ('shift', 'boltons'), ('grow', 'std')):
+            for ldr in (0, 1):
+                yield case([{'file': 'disk0.py', 'name': 'plug', 'reg': 'disk', 'v1': v1, 'prime': prime, 'mt': 'differ', 'gone': 0,
+                             'ldr': ldr}], [call, {'m': 0, 'kind': 'rec3', 'n': 4}], late=1)
+        for limit in (1000, 999, 1001):     # the default limit itself
+            yield case([pin], [call, lam], limit=limit)
+            yield case([pin], [call, lam], tblimit=limit)
         for odd in self.ODDS:
             for args in ([], ['x']):
                 yield case([pin], [call], exc={'kind': 'odd', 'm': 0, 'args': args, 'odd': odd})
@@ -1236,9 +1250,12 @@ class C16(Property):
             else:
                 paths.append(m['file'])
 
+        self._globals = []
+
         def load(texts, R):
             for m, src, path in zip(mods, texts, paths):
                 g = {'__name__': m['name'], 'R': R}
+                self._globals.append(g)
                 if m.get('gfile'):
                     g['__file__'] = m['gfile']      # code compiled under another name than the module's __file__
                 reg = m['reg']
@@ -1783,9 +1800,31 @@ class C16(Property):
                     obs['exc'] = 'CaseTimeout'
                 except Exception as e:
                     obs['exc'] = exc_name(e)
+            if case.get('late') and 'ei' in obs and 'exc' not in obs:
+                # object lifetime: an ExceptionInfo is built and nothing of it is read; only its TracebackInfo is kept;
+                # the exception, the traceback, its frames and the harness's references to the program's modules go away; then the
+                # kept object is asked for its text
+                try:
+                    with time_limit(10):
+                        late = tbutils.ExceptionInfo.from_exc_info(et, ev, tb)
+                        keep = late.tb_info
+                        del late
+                        info = et = ev = tb = cur = None
+                        self._globals = []      # (dropped, not emptied: what boltons still refers to stays intact)
+                        gc.collect()
+                        for m in case['mods']:      # nothing is cached for sources reachable only through a loader
+                            if m['reg'] not in ('cache', 'disk'):
+                                linecache.cache.pop(m['file'], None)
+                        obs['late'] = keep.get_formatted()
+                        obs['late_frames'] = [[f['module_path'], f['lineno'], f['func_name'], f['line']] for f in keep.to_dict()['frames']]
+                except CaseTimeout:
+                    obs['late_exc'] = 'CaseTimeout'
+                except Exception as e:
+                    obs['late_exc'] = exc_name(e)
             return obs
         finally:
             info = et = ev = tb = cur = None
+            self._globals = []
             if had_limit:
                 sys.tracebacklimit = old_limit
             elif hasattr(sys, 'tracebacklimit'):
@@ -2110,6 +2149,15 @@ class C16(Property):
                            'frames list and Callpoints of another object); before: %s' % (label, got, want))
         if case.get('af'):
             st['live_argform_' + case['af']] = st.get('live_argform_' + case['af'], 0) + 1
+        if case.get('late'):
+            st['live_lifetime'] = st.get('live_lifetime', 0) + 1
+            if 'late' not in obs:
+                return Failure('raises', 'TracebackInfo.get_formatted() raised %s after the exception and its frames were gone' % obs.get('late_exc'))
+            want = obs['ei'][:len(obs['ei']) - len(obs['ei_only'])]
+            if obs['late'] != want or obs['late_frames'] != obs['ei_frames']:
+                return Failure('lifetime', 'the TracebackInfo of an ExceptionInfo, first read after the exception, its traceback and the '
+                               'frames were gone: %r, frames %r; while they were alive: %r, %r'
+                               % (obs['late'], obs['late_frames'], want, obs['ei_frames']))
         # the interpreter's own text through the parser (first clause on real texts)
         p = obs['parsed']
         if not self._parsed_ok(p, obs):
@@ -2331,7 +2379,7 @@ class C16(Property):
             yield {k: v for k, v in case.items() if k != 'tblimit'}
         if case.get('skip'):
             yield {k: v for k, v in case.items() if k != 'skip'}
-        for key in ('seq', 'af', 'pf'):
+        for key in ('seq', 'af', 'pf', 'late'):
             if case.get(key):
                 yield {k: v for k, v in case.items() if k != key}
         pri = case.get('prior') or []
